@@ -23,7 +23,7 @@ def run(tier):
                   'timed, asyncio read timeout',
              consts=core.consts(Alpha=A('openws', 'wsio', 'api', 'send', 'tick'),
                                 FrameProfile='"steady"', ImplWsReadTimeout='TRUE',
-                                ImplSentinel='FALSE', MaxMsg=1, Horizon=6, MaxReq=3, MaxQ=4, MaxEv=3),
+                                ImplJoinLatch='TRUE', MaxMsg=1, Horizon=6, MaxReq=3, MaxQ=4, MaxEv=3),
              invariants=INVS, min_states=500),
         dict(name='upgrade in progress when the session ends, monitor on',
              consts=core.consts(Alpha=A('open', 'upgrade', 'wsio', 'post', 'api', 'tick'),
